@@ -49,49 +49,6 @@ RULE += (' ' +
          'from a handler or by the user); plugin take-over forms; four DER '
          'encodings of the server key; non-ASCII and dash-prefixed server '
          'ids; a session service that answers the first join attempts with '
-         'errors. ')
-RULE += (' ' +
-         'Added in later rounds: the login as the second session of its '
-         'Connection object (prior session with another threshold, reconnect '
-         'from a handler or by the user); plugin take-over forms; four DER '
-         'encodings of the server key; non-ASCII and dash-prefixed server '
-         'ids; a session service that answers the first join attempts with '
-         'errors. ')
-RULE += (' ' +
-         'Added in later rounds: the login as the second session of its '
-         'Connection object (prior session with another threshold, reconnect '
-         'from a handler or by the user); plugin take-over forms; four DER '
-         'encodings of the server key; non-ASCII and dash-prefixed server '
-         'ids; a session service that answers the first join attempts with '
-         'errors. Round 12: connected sockets and file objects of ended '
-         'sessions are closed. ')
-RULE += (' ' +
-         'Added in later rounds: the login as the second session of its '
-         'Connection object (prior session with another threshold, reconnect '
-         'from a handler or by the user); plugin take-over forms; four DER '
-         'encodings of the server key; non-ASCII and dash-prefixed server '
-         'ids; a session service that answers the first join attempts with '
-         'errors. Round 12: connected sockets and file objects of ended '
-         'sessions are closed. Round 13: take-over handlers that echo the '
-         'request payload, with tiny and incompressible payloads under '
-         'threshold 0. ')
-RULE += (' ' +
-         'Added in later rounds: the login as the second session of its '
-         'Connection object (prior session with another threshold, reconnect '
-         'from a handler or by the user); plugin take-over forms; four DER '
-         'encodings of the server key; non-ASCII and dash-prefixed server '
-         'ids; a session service that answers the first join attempts with '
-         'errors. Round 12: connected sockets and file objects of ended '
-         'sessions are closed. Round 13: take-over handlers that echo the '
-         'request payload, with tiny and incompressible payloads under '
-         'threshold 0. Round 14: an early listener that calls disconnect() '
-         'on the login disconnect packet without claiming it. ')
-RULE += (' ' +
-         'Added in later rounds: the login as the second session of its '
-         'Connection object (prior session with another threshold, reconnect '
-         'from a handler or by the user); plugin take-over forms; four DER '
-         'encodings of the server key; non-ASCII and dash-prefixed server '
-         'ids; a session service that answers the first join attempts with '
          'errors. Round 12: connected sockets and file objects of ended '
          'sessions are closed. Round 13: take-over handlers that echo the '
          'request payload, with tiny and incompressible payloads under '
